@@ -56,7 +56,7 @@ CLAIMED = {
          'Trusted: TLC, the independent wire decoder, the replayers. Payload bytes are generated content (never inspected by the code under test). Exhaustive within the stated windows only.',
          'DESIGN 6/C03', 'frag'),
  'C04': ('model_checking',
-         'TLC exhaustive check of Parser.tla + replay of every read transition on the real FrameParser / TransportTCP; Transport.tla (message sequences x endings) replayed on every message transport class',
+         'TLC exhaustive check of Parser.tla + replay of every read transition on the real FrameParser / TransportTCP (finished streams and piecemeal feeds) / the QUIC transport; Transport.tla (message sequences x endings) replayed on every message transport class incl. websocket over HTTP/3',
          'Parser.tla models the decoder loop at the real byte scale; TLC checks for twelve streams (valid, zero-length, shorter-than-header and unknown-type frames) and every chunking '
          'that exactly the frames wholly received have been emitted, in order. Every transition of the complete graph is replayed on the real FrameParser reached by one read, byte by byte '
          'and by a random path, the streams also go through TransportTCP over a real StreamReader with read sizes 1,2,3,7,1024 and through the message path (including the empty message); '
